@@ -490,7 +490,9 @@ fn validator_module(rng: &mut Rng, idx: usize, data: &[DataModule]) -> String {
         } else {
             format!("({})", params.join(", "))
         };
-        s.push_str(&format!("validator v{idx}_{v}{plist} {{\n"));
+        // half of the validators carry a name that another module's validator may carry too
+        let vname = if rng.chance(1, 2) { format!("v{idx}_{v}") } else { format!("main{v}") };
+        s.push_str(&format!("validator {vname}{plist} {{\n"));
         let handlers = 1 + rng.usize_below(3);
         s.push_str(&format!(
             "  spend(datum: Option<{an}.Rec>, redeemer: Int, _own_ref: Data, _self: Data) {{\n    expect Some(d) = datum\n    {an}.check_rec(d, redeemer + {psum}) && {bn}.len({bn}.table) >= {k} && {an}.must_when(redeemer > 5, datum) >= 0\n  }}\n\n",
